@@ -63,6 +63,9 @@ def run(ctx) -> None:
     ctx.rule("JOINED", "python: literal parts of a formatted string are escaped for the f-string syntax, exactly once (shared with C09)", floor=2)
     from . import c09 as _c09
     _c09._check_joined_str(ctx, "python")
+    ctx.rule("ENCLOSE", "a literal emitted without its quotes is escaped for the quote the caller encloses it with (shared with C19/C20)", floor=2)
+    from ..rules import litkw as _litkw
+    _litkw.check_enclosing_agreement(ctx, "ENCLOSE")
     for m in p.modules.values():
         if m.name.startswith("aas_core_codegen.python"):
             for f in m.functions.values():
